@@ -1,6 +1,7 @@
 package main
 
 import (
+	"fmt"
 	"go/ast"
 	"go/constant"
 	"go/token"
@@ -576,4 +577,21 @@ func containsNode(root, target ast.Node) bool {
 		return !found
 	})
 	return found
+}
+
+// fstr renders a formula (debugging aid).
+func fstr(f Formula) string {
+	switch x := f.(type) {
+	case *FLit:
+		return fmt.Sprintf("%s∈%03b", x.Atom, x.Mask)
+	case *FAnd:
+		return "(" + fstr(x.L) + " ∧ " + fstr(x.R) + ")"
+	case *FOr:
+		return "(" + fstr(x.L) + " ∨ " + fstr(x.R) + ")"
+	case *FNot:
+		return "¬" + fstr(x.X)
+	case nil:
+		return "nil"
+	}
+	return fmt.Sprintf("%T", f)
 }
